@@ -254,17 +254,17 @@ def units(tier):
                 if who == "none" and (cleanup != 0 or beh == 4):
                     continue
                 us.append({"name": "beh=%d cleanup=%d who=%s" % (beh, cleanup, who), "fn": scn,
-                           "params": {"beh": beh, "cleanup": cleanup, "who": who}, "budget_s": 90 if quick else 600})
+                           "params": {"beh": beh, "cleanup": cleanup, "who": who}, "budget_s": 240 if quick else 600})
     for who in ("caller", "group", "none"):
-        us.append({"name": "twice beh=5 (shielded start-up) who=%s" % who, "fn": scn, "params": {"beh": 5, "cleanup": 0, "who": who, "twice": True}, "budget_s": 90})
-    us.append({"name": "beh=5 cleanup=1 who=caller", "fn": scn, "params": {"beh": 5, "cleanup": 1, "who": "caller"}, "budget_s": 90})
+        us.append({"name": "twice beh=5 (shielded start-up) who=%s" % who, "fn": scn, "params": {"beh": 5, "cleanup": 0, "who": who, "twice": True}, "budget_s": 240})
+    us.append({"name": "beh=5 cleanup=1 who=caller", "fn": scn, "params": {"beh": 5, "cleanup": 1, "who": "caller"}, "budget_s": 240})
     for beh in (0, 3):
-        us.append({"name": "twice beh=%d who=caller" % beh, "fn": scn, "params": {"beh": beh, "cleanup": 0, "who": "caller", "twice": True}, "budget_s": 90})
-        us.append({"name": "twice beh=%d who=none" % beh, "fn": scn, "params": {"beh": beh, "cleanup": 0, "who": "none", "twice": True}, "budget_s": 90})
-        us.append({"name": "handle beh=%d who=group" % beh, "fn": scn, "params": {"beh": beh, "cleanup": 1, "who": "group", "return_handle": True}, "budget_s": 90})
+        us.append({"name": "twice beh=%d who=caller" % beh, "fn": scn, "params": {"beh": beh, "cleanup": 0, "who": "caller", "twice": True}, "budget_s": 240})
+        us.append({"name": "twice beh=%d who=none" % beh, "fn": scn, "params": {"beh": beh, "cleanup": 0, "who": "none", "twice": True}, "budget_s": 240})
+        us.append({"name": "handle beh=%d who=group" % beh, "fn": scn, "params": {"beh": beh, "cleanup": 1, "who": "group", "return_handle": True}, "budget_s": 240})
     for beh in (0, 1, 4):
         for cleanup in (0, 1):
-            us.append({"name": "native beh=%d cleanup=%d" % (beh, cleanup), "fn": scn, "params": {"beh": beh, "cleanup": cleanup, "who": "caller", "native": True}, "budget_s": 90})
+            us.append({"name": "native beh=%d cleanup=%d" % (beh, cleanup), "fn": scn, "params": {"beh": beh, "cleanup": cleanup, "who": "caller", "native": True}, "budget_s": 240})
     if not quick:
         for beh in (0, 1, 2, 3, 4):
             for cleanup in (0, 1, 2):
